@@ -237,8 +237,11 @@ def jobs_for(prop, tier, seed, only_leg=None):
     legs = plan["legs"][tier]
     jobs = []
     tmp = os.path.join(CACHE, "tmp")
+    only_cfgs = [c for c in os.environ.get("VERIF_ONLY_CFGS", "").split(",") if c]
     for li, leg in enumerate(legs):
         if only_leg is not None and li != only_leg:
+            continue
+        if only_cfgs and leg["cfg"] not in only_cfgs and not leg.get("python"):
             continue
         n = leg.get("shards", 1)
         of = leg.get("of", n)
@@ -414,7 +417,7 @@ def run_property(prop, tier, seed):
     # Replay files for unlisted violations.
     replay_paths = []
     if unlisted:
-        rdir = os.path.join(VERIF, "replays", prop)
+        rdir = os.path.join(VERIF, "replays", prop) if os.path.abspath(REPO) == "/repo" else os.path.join(CACHE, "replays-scratch", repo_key(), prop)
         os.makedirs(rdir, exist_ok=True)
         seen = set()
         for i, (sig, detail, job) in enumerate(unlisted):
@@ -465,9 +468,12 @@ def run_property(prop, tier, seed):
         "violations": nviol,
         "verdict": "violated" if nviol else ("inconclusive" if (inconclusive or harness_errors) else "held_on_explored"),
     }
-    os.makedirs(os.path.join(VERIF, "evidence"), exist_ok=True)
+    # Evidence about /repo goes to evidence/; runs against a scratch copy (VERIF_REPO, VERIF_ONLY_CFGS) must not overwrite it.
+    official = os.path.abspath(REPO) == "/repo" and not os.environ.get("VERIF_ONLY_CFGS")
+    edir = os.path.join(VERIF, "evidence") if official else os.path.join(CACHE, "evidence-scratch", repo_key())
+    os.makedirs(edir, exist_ok=True)
     if evals > 0 and distinct >= 2 and samples:
-        json.dump(evidence, open(os.path.join(VERIF, "evidence", "%s.json" % prop), "w"), indent=1, sort_keys=True)
+        json.dump(evidence, open(os.path.join(edir, "%s.json" % prop), "w"), indent=1, sort_keys=True)
 
     for sig, (k, detail) in sorted(known_hits.items()):
         print("KNOWN-FINDING: property=%s %s [sig=%s]" % (prop, k["desc"], sig))
